@@ -163,7 +163,8 @@ def generate(seed, tier, index=0):
         "steps": rng.randint(2, 5 if tier == "thorough" else 4),
         "max_returns_p": rng.choice([0.0, 0.3, 0.5, 0.8]),
     }
-    if rng.random() < 0.03:
+    long_run = rng.random() < 0.03
+    if long_run:
         # sequences as long as a whole V domain, over a few letters: single histogram bins reach counts above 127 / 255
         swarm["lengths"] = rng.choice([[126, 127, 128, 129], [127, 128], [254, 255, 256, 257]])
         swarm["max_n"] = rng.choice([3, 5, 6])
@@ -171,7 +172,7 @@ def generate(seed, tier, index=0):
         if len(alphabet) > 3:
             swarm["alphabet"] = alphabet = alphabet[:rng.choice([1, 2, 3])]
     big = rng.random()
-    if big < 0.015 or (tier == "thorough" and big < 0.02):
+    if not long_run and (big < 0.015 or (tier == "thorough" and big < 0.02)):  # (never both: 600 strings of 257 letters take minutes)
         # lists beyond any "small input" path: hundreds of tasks per pool, chunks of tens of rows
         swarm["max_n"] = 600 if (tier == "thorough" and big >= 0.015) else 150
         swarm["steps"] = 2
